@@ -25,6 +25,10 @@ static Arg year_arg(int y) {
   Arg a; a.y = y; a.mo = (y % 2) ? 1 : 7; a.d = 15; a.h = 12; a.mi = 30; a.s = 0; a.sentinel = false;
   a.epoch = civil::epoch2000_from_fields(y, a.mo, a.d, a.h, a.mi, a.s); a.name = fmt("y%d", y); return a;
 }
+static Arg edge_arg(int y, bool jan1) {
+  Arg a; a.y = y; a.mo = jan1 ? 1 : 12; a.d = jan1 ? 1 : 31; a.h = jan1 ? 0 : 23; a.mi = 30; a.s = 0; a.sentinel = false;
+  a.epoch = civil::epoch2000_from_fields(y, a.mo, a.d, a.h, a.mi, a.s); a.name = fmt("y%d%s", y, jan1 ? "jan1" : "dec31"); return a;
+}
 static Arg raw_arg(const char* nm, int64_t epoch, int y, int mo, int d, int h, int mi, int s) {
   Arg a; a.name = nm; a.epoch = epoch; a.y = y; a.mo = mo; a.d = d; a.h = h; a.mi = mi; a.s = s; a.sentinel = false; return a;
 }
@@ -179,8 +183,8 @@ template <class Db> void run_db(const Args& a, Counters& c, int& item) {
   // seed-rotated extra zones
   for (int k = 0; k < 2; k++) cz.push_back(Db::info((a.seed * 31 + k * 101 + 7) % Db::size()));
   std::vector<std::string> small = g_hostile
-      ? std::vector<std::string>{"y2005", "y2006", "y1997", "y2052", "sentinel", "y1999", "y2050", "int32min+1", "int32max", "y1872", "y2127", "badcomponents"}
-      : std::vector<std::string>{"y2005", "y2006", "y1997", "y2052", "sentinel", "y1999", "y2050"};
+      ? std::vector<std::string>{"y2005", "y2006", "y1997", "y2052", "sentinel", "y1999", "y2050", "int32min+1", "int32max", "y1872", "y2127", "badcomponents", "y2006jan1", "y2005dec31"}
+      : std::vector<std::string>{"y2005", "y2006", "y1997", "y2052", "sentinel", "y1999", "y2050", "y2006jan1", "y2005dec31", "y2050jan1", "y1999dec31"};
   std::vector<uint16_t> sa = arg_idx(small);
   auto mk_alpha = [&](int ntz, const std::vector<uint16_t>& args) {
     std::vector<Op> al;
@@ -200,7 +204,7 @@ template <class Db> void run_db(const Args& a, Counters& c, int& item) {
       Job j; j.cfg.kind = K_SHARED; j.cfg.zones = {cz[i], cz[i + 1], cz[i + 2]}; j.cfg.nslots = 0; j.depth = a.thorough ? 5 : 4; j.kname = "shared3"; j.alpha = mk_alpha(3, sa); jobs.push_back(j);
     }
     // ---- W3: managers with N slots holding N+1 / N+2 zones
-    std::vector<uint16_t> ma = arg_idx(g_hostile ? std::vector<std::string>{"y2005", "y2006", "y1997", "sentinel", "int32max"} : std::vector<std::string>{"y2005", "y2006", "y1997", "sentinel"});
+    std::vector<uint16_t> ma = arg_idx(g_hostile ? std::vector<std::string>{"y2005", "y2006", "y1997", "sentinel", "int32max"} : std::vector<std::string>{"y2005", "y2006", "y1997", "sentinel", "y2006jan1"});
     std::vector<uint16_t> ma2 = arg_idx({"y2005", "y1997"});
     int maxN = a.thorough ? 4 : 3;
     for (int N = 1; N <= maxN; N++) for (int extra = 1; extra <= 2; extra++) {
@@ -231,6 +235,8 @@ int main(int argc, char** argv) {
   g_hostile = a.get("hostile") == "1";
   g_pid = a.get("pid", "c08");
   for (int y = 1998; y <= 2051; y++) g_args.push_back(year_arg(y));
+  // year-boundary instants: the basic processor serves Jan 1 (UTC) from the previous year's cache
+  for (int y = 1999; y <= 2050; y++) { g_args.push_back(edge_arg(y, true)); g_args.push_back(edge_arg(y, false)); }
   g_args.push_back(year_arg(1997)); g_args.push_back(year_arg(2052));
   g_args.push_back(sentinel_arg());
   if (g_hostile) {
